@@ -49,8 +49,12 @@ P = {
   text="Theorems over MinorModel.gen (the ILP of solve_minor_model) for every feasible point, any number of candidate alleles, variants, sites, "
        "copies, read modes: product helpers exact, one catalogued minor per called major copy, core variants kept, additions only where the allele "
        "has copies and filtered reads, carried variants have reads, one variant per position, supported variants carried, phase assignment, copy "
-       "order, reference-site rows, objective = MinorSpec.pt_score (fit + dropped/added/novel penalties + phase) and optimality over feasible "
-       "points (partial: relative to the C05 solver contract); the shipped homozygous read-out is modelled with a variant switch and REFUTED for "
+       "order, reference-site rows, objective = MinorSpec.pt_score (fit + dropped/added/novel penalties + phase), and FULL optimality against the combinatorial "
+       "specification MinorSpec (C04_minor_optimal: for a minimiser of the ILP - the C05 solver contract - the assignment read out of the solver is "
+       "admissible, the reported score is exactly its MinorSpec score, and no admissible assignment over the instance's copies scores lower; proved "
+       "through C04_minor_point_spec: every feasible point denotes an admissible assignment with score <= objective, and C04_minor_spec_point: every "
+       "admissible assignment is realised by a feasible point with objective = score; side conditions inst_wf and minor_phase >= 0 are evaluated on "
+       "every instance of every run); the shipped homozygous read-out is modelled with a variant switch and REFUTED for "
        "'one per site' and 'score of the reported assignment' by vm_compute witnesses (known findings). " + TIE + "Structural LP tie (row by row) and "
        "behavioural tie (estimate_minor solutions/scores vs MinorSpec exhaustive enumeration) on generated instances incl. phase records.",
   note=TRUST + "CBC oracle (C05 contract). Read-out defects are listed in known_findings.json (open).",
